@@ -1,10 +1,11 @@
 """C04 - see DESIGN.md section 5; decided by the FieldWrap engine (harness/checks/fwcommon.py)."""
-from .fwcommon import replay_fw, run_fw
+from .fwcommon import observers_phase, replay_fw, run_fw
 from ..common import tier
 
 
 def run():
     rep = run_fw("C04", kappas=2 if tier() == "quick" else 6)
+    observers_phase(rep, "C04")
     return rep.finish()
 
 
